@@ -276,8 +276,16 @@ Lemma path_value_eq bs : path_value bs =
   palt (pmap (fun _ => PVBool false) (ptag [102; 97; 108; 115; 101] bs)) (fun _ =>
   palt (int_reading (pu64 bs) (fun v => PVNum (NUInt (Z.to_N v)))) (fun _ =>
   palt (int_reading (pi64 bs) (fun v => PVNum (NInt v))) (fun _ =>
-  palt (pmap (fun b => PVNum (NFloat b)) (pdouble bs)) (fun _ => pmap PVStr (pstring bs))))))).
+  palt (pmap (fun b => PVNum (NFloat b)) (pdouble bs)) (fun _ =>
+  palt (neg_inf_reading bs) (fun _ => pmap PVStr (pstring bs)))))))).
 Proof. reflexivity. Qed.
+
+(* the alternative added by the fix of `-inf` reads a minus sign and the word inf in some letter case *)
+Lemma neg_inf_reading_sound bs r v : neg_inf_reading bs = POk r v -> exists t, bs = 45 :: t ++ r /\ keyword KW_INF t /\ v = PVNum (NFloat F_NEG_INF).
+Proof.
+  unfold neg_inf_reading. intros H. apply pmap_ok in H. destruct H as (u & E & ->). pbind_in E r1 u1 E1. apply pchar_sound in E1. subst bs.
+  destruct (ptag_nc_sound _ kw_inf_ok _ _ _ E) as (t & -> & Hk). exists t. repeat split. exact Hk.
+Qed.
 
 Lemma int_reading_ok p g r v : int_reading p g = POk r v -> exists z, p = POk r z /\ not_float_tail r = true /\ v = g z.
 Proof.
@@ -352,6 +360,9 @@ Proof.
   apply palt_ok in H. destruct H as [H|[_ H]].
   { apply pmap_ok in H. destruct H as (b & E & ->). destruct (pdouble_sound _ _ _ E U I) as (t & -> & Hn).
     exists t. split; [reflexivity|apply L_number; exact Hn]. }
+  apply palt_ok in H. destruct H as [H|[_ H]].
+  { destruct (neg_inf_reading_sound _ _ _ H) as (t & -> & Hk & ->).
+    exists (45 :: t). split; [reflexivity|apply L_number; apply X_N_neg_inf; exact Hk]. }
   apply pmap_ok in H. destruct H as (s & E & ->). destruct (pstring_sound _ _ _ E) as (t & -> & Hq).
   exists t. split; [reflexivity|apply L_string; exact Hq].
 Qed.
